@@ -11,12 +11,13 @@ import (
 func init() {
 	Registry["C19"] = RuleDef{Module: ".", Run: runC19,
 		Technique:   "bounds prover on the topology parsers, guard and must-pass rules on the slot-table writers and redirect paths, emission-order rule for ASKING",
-		Explanation: "Decides (R19a) that every index/slice expression in parseSlots, parseShards and parseEndpoint is in bounds on every path (one reviewed exception: g.nodes[m] after m recorded the length before an append); (R19b) that in parseShards a node is added only when healthy and with a usable endpoint, that the index recorded for the primary is the index of a node that is appended on every path (so an unhealthy or endpoint-less primary can never make a replica the group's primary), that parseSlots skips groups whose primary has no endpoint, and that _refresh puts the group's primary g.nodes[0] into the slot table except in the ReplicaOnly arm; (R19c) that every MOVED/ASK re-send in do, doCache, DoMulti and DoMultiCache is behind the redirect counter and the MaxMovedRedirections exit; (R19d) that an ASK redirect sends ASKING immediately before the redirected command or MULTI; (R19e) that redirectOrNew writes the slot table only for MOVED with a real slot. (R19f) in the topology parsers a master's entry that was modified in a local copy is stored back into the map before the next element is examined; (R19g) every answer of shouldRefreshRetry that makes the caller redirect or retry - transport errors included - has scheduled a topology refresh.",
+		Explanation: "Decides (R19a) that every index/slice expression in parseSlots, parseShards and parseEndpoint is in bounds on every path (one reviewed exception: g.nodes[m] after m recorded the length before an append); (R19b) that in parseShards a node is added only when healthy and with a usable endpoint, that the index recorded for the primary is the index of a node that is appended on every path (so an unhealthy or endpoint-less primary can never make a replica the group's primary), that parseSlots skips groups whose primary has no endpoint, and that _refresh puts the group's primary g.nodes[0] into the slot table except in the ReplicaOnly arm; (R19c) that every MOVED/ASK re-send in do, doCache, DoMulti and DoMultiCache is behind the redirect counter and the MaxMovedRedirections exit; (R19d) that an ASK redirect sends ASKING immediately before the redirected command or MULTI; (R19e) that redirectOrNew writes the slot table only for MOVED with a real slot. (R19f) in the topology parsers a master's entry that was modified in a local copy is stored back into the map before the next element is examined; (R19h) in the batch paths a command whose reply was an ASK redirect is queued into the batch's ASKING lists (sent as ASKING+command by the next round) and every other re-queued command into the plain lists; (R19g) every answer of shouldRefreshRetry that makes the caller redirect or retry - transport errors included - has scheduled a topology refresh.",
 		NotDecided:  "destination correctness under concurrent topology change; the table-building arithmetic of _refresh beyond its explicit range guards; the final reply returned after redirects."}
 }
 
 func runC19(r *Report) {
 	topologyParseRules(r)
+	askQueueRule(r)
 	p := r.P
 	// R19a
 	reviewed := map[string]string{}
@@ -617,4 +618,92 @@ func outerLoopOf(fn *ssa.Function, b *ssa.BasicBlock) *ssa.BasicBlock {
 		}
 	}
 	return best
+}
+
+// askQueueRule (R19h): the cluster batch paths re-queue a redirected command into the next round's
+// work list of its new node; an ASK redirect must go into the lists that are sent with ASKING
+// (cAskings/aIndexes), anything else into the plain lists - the list decides whether ASKING is sent.
+func askQueueRule(r *Report) {
+	p := r.P
+	j, okj := redirectConsts(p)
+	if !r.Anchor("R19h", "redirect mode constants", okj) {
+		return
+	}
+	isMode := func(v ssa.Value) bool {
+		vals, _, ok := paramArgs(p, Strip(v))
+		if !ok || len(vals) == 0 {
+			return false
+		}
+		for _, x := range vals {
+			ex, isx := Strip(x).(*ssa.Extract)
+			if !isx || ex.Index != 1 {
+				return false
+			}
+			c, isc := ex.Tuple.(*ssa.Call)
+			if !isc || CalleeName(c) != "rueidis.(*clusterClient).shouldRefreshRetry" {
+				return false
+			}
+		}
+		return true
+	}
+	askGuard := func(g Guard) (isAsk bool, ok bool) {
+		x, op, y, cok := CmpGuard(g)
+		if !cok || (op != token.EQL && op != token.NEQ) {
+			return false, false
+		}
+		k, isc := ConstInt(y)
+		if !isc {
+			k, isc = ConstInt(x)
+			x = y
+		}
+		if !isc || k != j.redirectAsk || !isMode(x) {
+			return false, false
+		}
+		return op == token.EQL, true
+	}
+	n := 0
+	seen := map[*ssa.Function]bool{}
+	var scan func(fn *ssa.Function, depth int)
+	scan = func(fn *ssa.Function, depth int) {
+		if fn == nil || seen[fn] {
+			return
+		}
+		seen[fn] = true
+		for _, b := range fn.Blocks {
+			for i, in := range b.Instrs {
+				if c, isc := in.(*ssa.Call); isc && depth > 0 {
+					if h := c.Call.StaticCallee(); h != nil && h.Blocks != nil && h.Pkg == fn.Pkg && !isExportedName(h.Name()) && len(tableAppendsDirect(h)) > 0 {
+						scan(h, depth-1)
+					}
+				}
+				st, ok := in.(*ssa.Store)
+				if !ok {
+					continue
+				}
+				t, f, _, isf := FieldRef(st.Addr)
+				if !isf || (t != "rueidis.retry" && t != "rueidis.retrycache") {
+					continue
+				}
+				if c, isc := st.Val.(*ssa.Call); !isc || CalleeName(c) != "builtin.append" {
+					continue
+				}
+				var want bool
+				switch f {
+				case "cAskings", "aIndexes":
+					want = true
+				case "commands", "cIndexes":
+					want = false
+				default:
+					continue
+				}
+				n++
+				okG := Guarded(b, func(g Guard) bool { isAsk, ok := askGuard(g); return ok && isAsk == want })
+				r.ObSite("R19h", Site{fn, b, i, in}, "queued-list-matches-redirect-kind:"+f, okG, "a re-queued command goes into the ASKING lists exactly when the redirect was ASK (mode == RedirectAsk), into the plain lists otherwise")
+			}
+		}
+	}
+	for _, name := range []string{"rueidis.(*clusterClient).doresultfn", "rueidis.(*clusterClient).resultcachefn"} {
+		scan(r.FnAnchor("R19h", name), 1)
+	}
+	r.Anchor("R19h", "re-queue appends in the batch result functions (>= 8)", n >= 8)
 }
